@@ -95,7 +95,7 @@ def _ris_loop_inv(e):
             tm.Not(no_interrupted_step(db0))]
 
 
-@contract("stepup/core/startup.py::reset_interrupted_steps", props=["C04", "C05"])
+@contract("stepup/core/startup.py::reset_interrupted_steps", props=["C04", "C05", "C19"])
 class reset_interrupted_steps:
     """C04: from a state without interrupted steps the function changes no step state and marks nothing pending.
     C05: afterwards no step is RUNNING or CHECKING; RUNNING steps were made FAILED and every attached FAILED step was
